@@ -26,6 +26,7 @@ func (w *bitWriter) put(v uint64, n int) {
 // ---- VP9 frames: uncompressed header from the VP9 bitstream specification ----------
 
 type vp9Frame struct {
+	showExisting bool // show_existing_frame = 1: the whole frame is the 1-2 byte header
 	data       []byte
 	profile    int
 	key        bool
@@ -48,6 +49,18 @@ func genVP9Frame(t *core.Tape, mtu int) vp9Frame {
 	w.put(uint64(f.profile>>1), 1)
 	if f.profile == 3 {
 		w.put(0, 1) // reserved_zero
+	}
+	if t.Chance(1, 10) {
+		// show_existing_frame = 1, frame_to_show_map_idx f(3): the frame consists of this header only
+		w.put(1, 1)
+		w.put(uint64(t.Intn(8)), 3)
+		f.showExisting, f.key = true, false
+		f.hdrBits = w.nbit
+		for w.nbit%8 != 0 {
+			w.put(0, 1)
+		}
+		f.data = w.b
+		return f
 	}
 	w.put(0, 1) // show_existing_frame
 	if f.key {
